@@ -227,12 +227,24 @@ def d1_layout(ctx, fits, rule='C07-D1', rule2='C07-D2', rule5='C07-D5'):
     while loop is not None and not isinstance(loop, ast.For):
         loop = fits.parents.get(loop)
     iv = unparse(loop.target) if loop is not None else '?'
-    okm = mg is not None and unparse(mg) in ('list(deriv_y[%s])' % iv, 'deriv_y[%s]' % iv)
-    ctx.check(rule, 'fits.py:least_squares#man_grad-row', okm, 'parameter i gets row i of deriv_y', 'man_grad is %s in a loop over %s' % (unparse(mg), iv), fits.loc(dc))
+    # `for p, g in zip(fitp, deriv_y)` is the index loop over the parameters with p = fitp[i], g = deriv_y[i] (both have n_parms rows)
+    subst = {}
+    zipped = False
+    if loop is not None and isinstance(loop.iter, ast.Call) and call_name(loop.iter) == 'zip' and isinstance(loop.target, ast.Tuple) and len(loop.target.elts) == len(loop.iter.args) \
+            and all(isinstance(x_, ast.Name) for x_ in loop.target.elts) and all(unparse(a_) in ('fitp', 'deriv_y', 'deriv_y[:n_parms]', 'fit_result.x') for a_ in loop.iter.args) \
+            and any(unparse(a_) in ('fitp', 'fit_result.x') for a_ in loop.iter.args):
+        iv = 'i'
+        zipped = True
+        subst = {x_.id: '%s[i]' % unparse(a_).replace('[:n_parms]', '').replace('fit_result.x', 'fitp') for x_, a_ in zip(loop.target.elts, loop.iter.args)}
+    from .C14 import _subst as _sub14
+    mg_ = _sub14(mg, subst) if mg is not None else None
+    okm = mg_ is not None and unparse(mg_) in ('list(deriv_y[%s])' % iv, 'deriv_y[%s]' % iv)
+    ctx.check(rule, 'fits.py:least_squares#man_grad-row', okm, 'parameter i gets row i of deriv_y', 'man_grad is %s in a loop over %s' % (unparse(mg), unparse(loop.target) if loop is not None else '?'), fits.loc(dc))
     c = carrier_check(ctx, rule5, 'fits.py:least_squares#carrier', fits, f, dc, iv)
     if c is not None:
-        ctx.check(rule5, 'fits.py:least_squares#carrier-index', unparse(c) == 'fitp[%s]' % iv, 'carrier value is fitp[i] for the same i as the gradient row', 'carrier value %s vs gradient row %s' % (unparse(c), iv), fits.loc(dc))
-    okr = loop is not None and unparse(loop.iter) == 'range(n_parms)'
+        c_ = _sub14(c, subst)
+        ctx.check(rule5, 'fits.py:least_squares#carrier-index', unparse(c_) == 'fitp[%s]' % iv, 'carrier value is fitp[i] for the same i as the gradient row', 'carrier value %s vs gradient row %s' % (unparse(c), iv), fits.loc(dc))
+    okr = loop is not None and (unparse(loop.iter) == 'range(n_parms)' or zipped)
     ctx.check(rule, 'fits.py:least_squares#all-parameters', okr, 'one result per parameter', 'result loop runs over %s' % (unparse(loop.iter) if loop is not None else None))
 
 
